@@ -56,6 +56,8 @@ def _history(kind, ops, ival):
     intended = {name: list(INITIAL[name]), 'Nickname': ['fixed']}
     pending = []
     assigned = set()     # options assigned (not mutated in place) since the last successful save
+    str_assigned = set()  # ... with a plain string (for a list-valued option)
+    tainted = set()      # list options whose last *saved* value was given as a plain string
     counter = 0
 
     def mark(n):
@@ -79,9 +81,11 @@ def _history(kind, ops, ival):
                         sval = 'n%d,second%d' % (counter, counter) if kind == 'comma' else '96%02d' % counter
                         setattr(cfg, name, sval)
                         intended[name] = [sval]
+                        str_assigned.add(name)
                     else:
                         setattr(cfg, name, list(newl))
                         intended[name] = list(newl)
+                        str_assigned.discard(name)
                 else:
                     val, text = _scalar_value(kind, counter, ival)
                     setattr(cfg, name, val)
@@ -90,6 +94,8 @@ def _history(kind, ops, ival):
                 mark(name)
             elif 1 <= op <= 5:
                 assume(listy and name not in assigned)
+                if name in tainted and known('C10-string-to-commalist'):
+                    assume(False)        # region of the listed known finding (re-checked by its witness)
                 lst = cfg.__getattr__(name)
                 x = {'comma': 'e%d', 'lines': 'info file /g%d', 'ports': '93%02d'}[kind] % counter
                 if kind == 'ports' and counter % 3 == 0:
@@ -186,6 +192,8 @@ def _history(kind, ops, ival):
                     untouched = tor.options['ExcludeNodes']['values']
                     if untouched != ['{aa},{bb}']:
                         return R('an-unchanged-option-was-altered-in-tor', 'ExcludeNodes now %r', untouched)
+                    tainted = (tainted - set(pending)) | (str_assigned & set(pending))
+                    str_assigned = set()
                     pending = []
                     assigned = set()
                     if cfg.needs_save():
